@@ -19,13 +19,14 @@ from __future__ import annotations
 
 import json
 import random
+import traceback
 
 import numpy as np
 
 from ..core import Check, MachineryError, main
 from . import c09_disc
 
-INVS = ["WellFormed", "AccIsTotal", "Shapes", "StructuralZeros", "SetsSane"]
+INVS = ["WellFormed", "AccIsTotal", "RequestIndependence", "PathSumIsTotal", "Shapes", "StructuralZeros", "SetsSane"]
 NEXT = 2  # external names
 POOL = ["a", "b", "c", "d", "e", "f", "g", "h", "k", "m", "p", "q", "r", "s", "t", "u", "v", "w", "x", "y", "z"]
 
@@ -36,8 +37,14 @@ def topo_cfg(max_n, max_ins, max_extra, extra_ext, independent=False, npool=2):
             f" NPool = {npool}\nSPECIFICATION Spec\nINVARIANT Legal\nINVARIANT Emit\nCHECK_DEADLOCK FALSE\n")
 
 
-def rule_cfg(exhaustive=False, max_hist=3, check_known=False, view=False, emit=True, full_alphabet=False):
-    s = (f"CONSTANTS Exhaustive = {'TRUE' if exhaustive else 'FALSE'}\n MaxHist = {max_hist}\n"
+# The implementation-shaped model follows the code AS READ TODAY.  Once the fixes/C09-*.patch are committed to
+# /repo set this to True: the model then uses the repaired assembly rules (and the known_findings become "fixed").
+MODEL_REPAIRED = False
+
+
+def rule_cfg(exhaustive=False, max_hist=3, check_known=False, view=False, emit=True, full_alphabet=False, repaired=None):
+    rep = MODEL_REPAIRED if repaired is None else repaired
+    s = (f"CONSTANTS Exhaustive = {'TRUE' if exhaustive else 'FALSE'}\n MaxHist = {max_hist}\n Repaired = {'TRUE' if rep else 'FALSE'}\n"
          f" CheckKnown = {'TRUE' if check_known else 'FALSE'}\n FullAlphabet = {'TRUE' if full_alphabet else 'FALSE'}\n"
          "SPECIFICATION Spec\nCHECK_DEADLOCK FALSE\n")
     for i in INVS:
@@ -184,10 +191,10 @@ def tlc_instances(ck: Check, insts, tag, *, expect_ok=True, workers=1, **cfgkw):
             _, iid, cin, cout, classes, defect, tables = v
             inst_lines[iid] = {"in": cin, "out": cout, "classes": classes, "defect": defect, "tables": _seq(tables)}
         elif v[0] == "REQ":
-            _, iid, hist, rin, rout, modelled, din, dout, agrees, sigcls, indep = v
+            _, iid, hist, rin, rout, modelled, din, dout, agrees, sigcls, indep, dup = v
             req_lines.setdefault(iid, {})[_hkey(hist)] = {"hist": _seq(hist), "in": rin, "out": rout, "modelled": modelled,
                                                          "dIn": _seq(din), "dOut": _seq(dout), "agrees": agrees,
-                                                         "sig": sigcls, "indep": indep}
+                                                         "sig": sigcls, "indep": indep, "dup": dup}
     return r, inst_lines, req_lines
 
 
@@ -256,7 +263,7 @@ def replay_history(ck: Check, inst, meta, il, reqs, hist, checked):
         want = reqs.get(key)
         if want is None:
             raise MachineryError(f"no REQ line for instance {inst['id']} history {key}")
-        sig = dict(base_sig, topology_class=want["sig"], independent_pair=bool(want["indep"]),
+        sig = dict(base_sig, topology_class=want["sig"], independent_pair=bool(want["indep"]), duplicate_output=bool(want["dup"]),
                    request="all" if rq[2] else "subset", step=k + 1)
         pt = rq[3]
         data = {nm[v - 1]: np.array(inst["points"][pt - 1][v - 1], dtype=float) for v in il["in"]}
@@ -268,9 +275,13 @@ def replay_history(ck: Check, inst, meta, il, reqs, hist, checked):
             proc.add_differentiated_outputs([nm[v - 1] for v in rq[1]])
             return proc.linearize(data)
 
-        ok, jac = ck.guard("Linearize", sig, call)
-        if not ok:
-            ck.violations and ck.violations[-1]["detail"].update(case=case, step=k + 1) if _last_is(ck, sig) else None
+        try:
+            jac = call()
+        except Exception as ex:  # noqa: BLE001 - gemseo raised on a request the specification allows
+            ck.violation("Linearize", dict(sig, exception=type(ex).__name__),
+                         dict(case, step=k + 1, exception=repr(ex), traceback=traceback.format_exc(limit=8),
+                              requested_in=[nm[v - 1] for v in sorted(want["in"])],
+                              requested_out=[nm[v - 1] for v in sorted(want["out"])]))
             return False
         if key in checked:
             continue
@@ -313,6 +324,9 @@ def replay_history(ck: Check, inst, meta, il, reqs, hist, checked):
             ck.extra["model_steps"] = ck.extra.get("model_steps", 0) + 1
             ck.extra["model_steps_same_derived_state"] = ck.extra.get("model_steps_same_derived_state", 0) + int(same)
             ck.extra["model_predicts_outcome"] = ck.extra.get("model_predicts_outcome", 0) + int(bool(want["agrees"]) == (not bad))
+            if bool(want["agrees"]) != (not bad) and len(ck.extra.setdefault("model_outcome_mismatches", [])) < 5:
+                ck.extra["model_outcome_mismatches"].append(dict(case, step=k + 1, model_agrees=bool(want["agrees"]),
+                                                                 wrong=bad[:3], sig=sig))
         if bad:
             good = False
             clause = "Executes" if all("value_of" in b for b in bad) else "TotalDerivative"
@@ -320,10 +334,6 @@ def replay_history(ck: Check, inst, meta, il, reqs, hist, checked):
                                            requested_out=[nm[v - 1] for v in sorted(want["out"])], wrong=bad[:6],
                                            n_wrong=len(bad), classes=sorted(il["classes"])))
     return good
-
-
-def _last_is(ck, sig):
-    return bool(ck.violations) and all(ck.violations[-1]["signature"].get(k) == v for k, v in sig.items())
 
 
 def _rkey(r):
@@ -365,7 +375,7 @@ def exhaustive_histories(ck: Check, rng, seq_topos, ind_topos, next_id):
     rich = [t for t in plain3 if {"diamond", "pass_through", "fan_out"} <= t["classes"] or "isolated" in t["classes"]]
     par = [t for t in ind_topos if t["n"] >= 2 and len({o for s in t["outs"] for o in s}) == sum(len(s) for s in t["outs"])]
     add = [t for t in ind_topos if t["n"] >= 2 and all(len(s) == 2 for s in t["ins"]) and len({tuple(s) for s in t["outs"]}) == 1]
-    picks = [(diamond[0], "chain")] + [(t, "chain") for t in rng.sample(rich, 5 if th else 2)]
+    picks = [(diamond[0], "chain")] + [(t, "chain") for t in rng.sample(rich, 2 if th else 1)]
     picks += [(rng.choice(par), "parallel"), (rng.choice(add), "additive")]
     insts, metas = [], {}
     for k, (t, shape) in enumerate(picks):
@@ -426,21 +436,30 @@ def refute_known_classes(ck: Check, rng):
 
 
 def run(ck: Check):
+    import time
     rng = random.Random(ck.seed)
     th = ck.thorough
+    t0 = time.time()
+    timing = ck.extra.setdefault("timing_s", {})
+
+    def lap(name):
+        nonlocal t0
+        timing[name] = round(time.time() - t0, 1)
+        t0 = time.time()
     # ---- 1. topologies from TLC
     seq_topos = enumerate_topologies(ck, max_n=4 if th else 3, max_ins=3, max_extra=1, extra_ext=True)
     if not th:
         seq_topos += [t for t in enumerate_topologies(ck, max_n=4, max_ins=2, max_extra=1, extra_ext=False) if t["n"] == 4]
     ind_topos = enumerate_topologies(ck, max_n=3, max_ins=2, max_extra=0, extra_ext=False, independent=True, npool=3 if th else 2)
     ck.extra["topologies_enumerated"] = {"sequential": len(seq_topos), "independent_members": len(ind_topos)}
+    lap("topologies")
     clean = [t for t in seq_topos if "overwritten" not in t["classes"] and "input_is_output" not in t["classes"]]
     segm = [t for t in clean if len(segments(t)) >= 2]
 
     budget = {"chain": 1400, "nested": 500, "parallel": 250, "additive": 250, "parallel_of_chains": 200,
               "mda": 300, "mda_parallel": 150, "poly": 400} if th else \
-             {"chain": 230, "nested": 70, "parallel": 40, "additive": 40, "parallel_of_chains": 30,
-              "mda": 40, "mda_parallel": 20, "poly": 50}
+             {"chain": 160, "nested": 50, "parallel": 30, "additive": 30, "parallel_of_chains": 20,
+              "mda": 30, "mda_parallel": 15, "poly": 40}
     plan = []
     plan += [(t, "chain", False) for t in stratified(rng, seq_topos, budget["chain"])]
     plan += [(t, "nested", False) for t in stratified(rng, [t for t in seq_topos if t["n"] >= 2], budget["nested"])]
@@ -462,7 +481,13 @@ def run(ck: Check):
     for inst in insts:
         g = il0[inst["id"]]
         inst["hist"] = draw_history(rng, g["in"], g["out"], metas[inst["id"]]["hist_len"])
+    lap("grammars")
     r, il, rl = tlc_instances(ck, insts, "main", max_hist=3)
+    lap("tlc_main")
+    # the repaired assembly rules (fixes/C09-*.patch) satisfy AccIsTotal on EVERY class, the defect classes included
+    r2, _, _ = tlc_instances(ck, insts, "repaired", max_hist=3, repaired=True, check_known=True, emit=False, workers=2)
+    ck.extra["repaired_rules_hold_on_states"] = r2.distinct
+    lap("tlc_repaired")
     n_hist = 0
     for inst in insts:
         iid = inst["id"]
@@ -475,8 +500,18 @@ def run(ck: Check):
             ck.sample({"shape": metas[iid]["shape"], "n": inst["n"], "ins": inst["ins"], "outs": inst["outs"],
                        "history": inst["hist"], "classes": sorted(il[iid]["classes"])})
     ck.extra["instances_replayed"] = n_hist
+    lap("replay")
+    # vacuity: every composition kind was exercised, blocks were compared, the model was stepped
+    shapes = {m["shape"] for m in metas.values()}
+    missing = {"chain", "nested", "parallel", "additive", "parallel_of_chains", "mda", "mda_parallel"} - shapes
+    if missing or not ck.extra.get("blocks_compared") or not ck.extra.get("model_steps") \
+            or sum(len(v) for v in rl.values()) < len(insts):
+        raise MachineryError(f"vacuous run: missing shapes {sorted(missing)}, blocks {ck.extra.get('blocks_compared')}, "
+                             f"model steps {ck.extra.get('model_steps')}, REQ lines {sum(len(v) for v in rl.values())}")
     exhaustive_histories(ck, rng, seq_topos, ind_topos, next_id=len(insts) + 1)
+    lap("exhaustive_histories")
     refute_known_classes(ck, rng)
+    lap("refute")
     ck.extra["instances_by_shape"] = {s: sum(1 for m in metas.values() if m["shape"] == s) for s in
                                       sorted({m["shape"] for m in metas.values()})}
     ck.exhaustive = False
